@@ -365,6 +365,10 @@ class Documentable:
         isVisible = self.privacyClass is not PrivacyClass.HIDDEN
         # If a module/package/class is hidden, all it's members are hidden as well.
         if isVisible and self.parent:
+            if self.parent.contents.get(self.name) is not self:
+                # This object has been superseded by a later definition of the same name (see System.handleDuplicate), 
+                # it is not rendered, so it must not be listed or linked to either.
+                return False
             isVisible = self.parent.isVisible
         return isVisible
 
